@@ -74,8 +74,8 @@ class Scen(CompScenario):
         return k, plan[k][1], plan[k][2]
 
     def _mask(self, rng):
-        if self.en_w == 1:
-            return 1
+        if self.en_w == 1:  # a single lane: the mask is one bit, and an empty mask must write nothing
+            return int(rng.random() < 0.7) if self.cfg["gran"] is not None else 1
         r = rng.random()
         if r < 0.2:
             return self.full_mask
